@@ -7,10 +7,15 @@ class PropBase:
     extractors = []
     leanchecker = True
 
-    def corr(self, rep, impl, model, ctx, ops=None, ignore=()):
+    # the row fields this property's theorems speak about: the *generic* correspondence (random histories, run by every
+    # check) compares the set of rows and these fields only, so that a change which cannot touch the property does not
+    # break its obligations.  None = every field.  The property's own scenarios always compare whole lines.
+    corr_fields = None
+
+    def corr(self, rep, impl, model, ctx, ops=None, ignore=(), only=None):
         """correspondence of the two output streams; a disagreement is a broken obligation, reported
         (at the end) only if the search finds no concrete input on which the property fails"""
-        ds = core.compare_streams(impl, model, ignore=ignore)
+        ds = core.compare_streams(impl, model, ignore=ignore, only=only)
         for d in ds[:1]:
             rep.model_disagreements += 1
             rep.violation(f"model and implementation disagree on {d[3]}: {ctx}",
@@ -49,7 +54,8 @@ class PropBase:
             impl, _, model = run.execute(ops, model=True)
             rep.evaluations += sum(1 for o in ops if o.startswith("line")); rep.traces += 1
             rep.count("generic_corr_histories")
-            PropBase.corr(self, rep, impl, model, {"generic_history": h, "options": opts}, ops)
+            only = None if self.corr_fields is None else set(self.corr_fields) | {"icao"}
+            PropBase.corr(self, rep, impl, model, {"generic_history": h, "options": opts, "fields": sorted(only) if only else "all"}, ops, only=only)
 
     def panics(self, rep, impl, ctx, ops=None):
         for l in impl:
